@@ -438,8 +438,9 @@ def _check_fuse(ctx, model):
             cand = rv3[1][1]
             params3 = {x.arg for x in fn3.args.args} | {
                 x.arg for x in fn3.args.kwonlyargs}
-            if cand[2] == (_p(pa), _p(pb), _p(pf)) and all(
-                    k in params3 and v == _p(k) for k, v in cand[3]):
+            if cand[2][:3] == (_p(pa), _p(pb), _p(pf)) and all(
+                    v[0] == "param" and v[1] in params3 for v in cand[2][3:]
+            ) and all(k in params3 and v == _p(k) for k, v in cand[3]):
                 dis = cand
         if dis is not None:
             fu = ("call", "fuse_statement_streams_with_unique_ids",
@@ -450,7 +451,141 @@ def _check_fuse(ctx, model):
            if ok else "disambiguate_and_fuse wiring changed")
 
 
+def _judge_disambiguate(model, fn, module):
+    """interpretive judge (pv/absint.py): disambiguate_identifiers interpreted
+    on abstract streams.  The identifier sets of the streams, the filter and
+    the unique-name generator are supplied; checked: exactly the identifiers
+    used by both streams that pass the filter are renamed, each to a variable
+    whose name is used by neither stream and by no other renaming, and every
+    statement of the second stream is rewritten through map_expressions with
+    that very substitution (left-hand sides included).  -> witnesses"""
+    from ..absint import Closure, Interp, Opaque, Raised, StepBound
+    wit = []
+    glob = {}
+    for st in module.tree.body:
+        if isinstance(st, ast.FunctionDef):
+            glob[st.name] = Closure(st, glob)
+    scenarios = [
+        ({"x", "y", "t"}, {"x", "t", "z"}, lambda n: True, None),
+        ({"x", "y"}, {"x", "y", "x_0"}, lambda n: n != "y", None),
+        ({"x"}, {"z"}, lambda n: True, None),
+        ({"x", "x_0", "x_1"}, {"x"}, lambda n: True, None),
+        # a caller-supplied generator that first proposes names in use
+        ({"x", "n1"}, {"x", "n2"}, lambda n: True, ["n1", "n2", "n3", "n4"]),
+    ]
+    params = [a.arg for a in fn.args.args]
+    for ida, idb, filt, proposals in scenarios:
+        class Stmt:
+            def __init__(self, nm):
+                self.nm = nm
+        sa = [Stmt("a0"), Stmt("a1")]
+        sb = [Stmt("b0"), Stmt("b1"), Stmt("b2")]
+        mapped = []
+
+        class Gen:
+            def __init__(self, seed):
+                self.seen = set(seed)
+
+            def __call__(self, base):
+                i = 0
+                while f"{base}_{i}" in self.seen:
+                    i += 1
+                self.seen.add(f"{base}_{i}")
+                return f"{base}_{i}"
+
+        def used(it, n_, a, k):
+            lst = list(a[0])
+            if lst and all(x in sa for x in lst):
+                return set(ida)
+            if lst and all(x in sb for x in lst):
+                return set(idb)
+            raise AnalysisError("get_all_used_identifiers on a mixed stream")
+
+        def attrs(it, n_, base, attr):
+            if isinstance(base, Stmt) and attr == "map_expressions":
+                def me(mapper, include_lhs=True):
+                    mapped.append((base, mapper, include_lhs))
+                    return ("mapped", base.nm)
+                return me
+            return Opaque(ast.unparse(n_))
+        props = list(proposals) if proposals else None
+
+        def supplied(base):
+            return props.pop(0) if props else base + "_zz"
+        it = Interp(calls={
+            "get_all_used_identifiers": used,
+            "UniqueNameGenerator": lambda it_, n_, a, k: Gen(a[0] if a else ()),
+            "var": lambda it_, n_, a, k: ("var", a[0]),
+            "make_subst_func": lambda it_, n_, a, k: ("subst_func", a[0]),
+            "SubstitutionMapper": lambda it_, n_, a, k: ("mapper", a[0]),
+        }, attrs=attrs, globals_=glob, max_steps=50000)
+        label = f"streams using {sorted(ida)} / {sorted(idb)}" + (
+            ", caller's generator" if proposals else "")
+        args = [sa, iter(sb) if False else sb, filt]
+        kw = {}
+        if proposals:
+            gen_params = [p_ for p_ in params[3:]] + [
+                a.arg for a in fn.args.kwonlyargs]
+            if not gen_params:
+                continue        # no such parameter on this tree
+            kw[gen_params[0]] = supplied
+        try:
+            res = it.call_function(fn, args, {"__kwargs__": kw})
+        except Raised as r:
+            wit.append(f"{label}: raises at line {r.node.lineno}")
+            continue
+        except StepBound:
+            wit.append(f"{label}: does not terminate")
+            continue
+        if not (isinstance(res, tuple) and len(res) == 2):
+            wit.append(f"{label}: returns {res!r}")
+            continue
+        new_b, subst = res
+        want_keys = {n for n in ida & idb if filt(n)}
+        if not isinstance(subst, dict) or set(subst) != want_keys:
+            wit.append(f"{label}: renames {sorted(subst) if isinstance(subst, dict) else subst!r}"
+                       f", expected {sorted(want_keys)}")
+            continue
+        fresh = [v[1] if isinstance(v, tuple) and v[0] == "var" else None
+                 for v in subst.values()]
+        if None in fresh or len(set(fresh)) != len(fresh) or any(
+                f_ in ida | idb for f_ in fresh):
+            wit.append(f"{label}: new names {fresh} are not fresh and distinct")
+            continue
+        if list(new_b) != [("mapped", s_.nm) for s_ in sb] or any(
+                not (m_[1] == ("mapper", ("subst_func", subst)) and m_[2])
+                for m_ in mapped) or len(mapped) != len(sb):
+            wit.append(f"{label}: the second stream is not rewritten statement "
+                       "by statement with the returned substitution (lhs "
+                       "included)")
+    return wit
+
+
 def _check_disambiguate(ctx, model):
+    m, fn = model.func(f"{TR}:disambiguate_identifiers")
+    try:
+        wit = _judge_disambiguate(model, fn, m)
+    except AnalysisError as e:
+        ctx.extra["judge_unavailable:disambiguate_identifiers"] = str(e)
+        _check_disambiguate_structural(ctx, model)
+        return
+    ctx.ob("P0/disambiguate/semantics", not wit, m.loc(fn),
+           "disambiguate_identifiers interpreted on abstract streams: exactly "
+           "the shared identifiers that pass the filter are renamed, to fresh "
+           "distinct names, consistently through map_expressions" if not wit else
+           "disambiguate_identifiers: " + "; ".join(wit[:3]))
+    mark = len(ctx.obs)
+    try:
+        _check_disambiguate_structural(ctx, model)
+    except AnalysisError:
+        if wit:
+            raise
+    if not wit:
+        ctx.withdraw_failures_since(mark, "decided by interpreting the function "
+                                    "on abstract streams")
+
+
+def _check_disambiguate_structural(ctx, model):
     m, fn = model.func(f"{TR}:disambiguate_identifiers")
     loc = m.loc(fn)
     a, b, filt = [x.arg for x in fn.args.args][:3]
